@@ -18,6 +18,7 @@ import (
 	"fmt"
 	"strconv"
 	"strings"
+	"sync"
 	"testing"
 	"time"
 
@@ -209,6 +210,108 @@ func vfC06Forged(id string, f []string) string {
 	return out + fmt.Sprintf(" fp=%s spv=%s snow=%d x25519err=%s", vfC06Hex(fp), vfC06Hex(k.spv[:]), serverNow.UnixNano(), vfC06B(xerr != nil))
 }
 
+// Several connections of one session: k connections presenting the same (UID, session id A) - what a client with
+// NumConn = k, or one that reconnects, does - plus one connection with another session id B, through the real client
+// transport and the real dispatchConnection on ONE server State.  In sequence (each handshake finished before the
+// next starts) or overlapped (all started together).  Every connection has its own client object (own ephemeral key).
+//   <id> MS <direct|cdn> <chrome|firefox|safari> <encName> <k> <seq|par> <seed>
+// -> <id> tr=.. n=<k+1> sid0=.. ok0=.. ckey0=.. ... skeyA=<key of the server's session A> skeyB=.. order=<completion order>
+func vfC06Multi(id string, f []string) string {
+	k, _ := strconv.Atoi(f[3])
+	mode, seed := f[4], f[5]
+	now := time.Unix(1700000000, 0)
+	uid := []byte("multi-conn-uid-0")
+	keys := vfC06MakeKeys(seed)
+	panel := vfC06NewPanel()
+	srv := vfC06NewServer(keys, uid, "shadowsocks", now, seed, panel)
+	cdn := f[0] == "cdn"
+	const sidA, sidB = 0xA0A0, 0xB0B0
+	type one struct {
+		sid  uint32
+		key  [32]byte
+		err  error
+		link *vfC06Link
+	}
+	conns := make([]*one, k+1)
+	for i := range conns {
+		conns[i] = &one{sid: sidA}
+	}
+	conns[k].sid = sidB         // ... except the last one
+	if k >= 2 {                  // the B connection sits in the middle of the A connections when there are several
+		conns[k], conns[1] = conns[1], conns[k]
+	}
+	var mu sync.Mutex
+	order := ""
+	run := func(i int) {
+		c := conns[i]
+		cfg := vfC06Cfg{transport: f[0], browser: f[1], encName: f[2], sid: c.sid, serverName: "www.example.com",
+			uid: uid, method: "shadowsocks", clientNow: now, seed: fmt.Sprintf("%s/conn%d", seed, i)}
+		cl, err := vfC06NewClient(keys, cfg)
+		if err != nil {
+			c.err = err
+			return
+		}
+		c.link = vfC06Connect(srv, cdn)
+		done := make(chan struct{})
+		go func() {
+			c.key, c.err = cl.tr.Handshake(c.link.clientEnd, cl.auth)
+			close(done)
+		}()
+		select {
+		case <-done:
+		case <-time.After(60 * time.Second):
+			c.link.clientEnd.Close()
+			<-done
+		}
+		mu.Lock()
+		order += strconv.Itoa(i)
+		mu.Unlock()
+	}
+	if mode == "par" {
+		var wg sync.WaitGroup
+		for i := range conns {
+			wg.Add(1)
+			go func(i int) { defer wg.Done(); run(i) }(i)
+		}
+		wg.Wait()
+	} else {
+		for i := range conns {
+			run(i)
+		}
+	}
+	trName := "tls"
+	if cdn {
+		trName = "ws"
+	}
+	out := fmt.Sprintf("%s tr=%s n=%d mode=%s", id, trName, len(conns), mode)
+	for i, c := range conns {
+		ck := "-"
+		if c.err == nil {
+			ck = vfC06Hex(c.key[:])
+		}
+		out += fmt.Sprintf(" sid%d=%x ok%d=%s ckey%d=%s", i, c.sid, i, vfC06B(c.err == nil), i, ck)
+	}
+	for name, sid := range map[string]uint32{"A": sidA, "B": sidB} {
+		if sesh := vfC06FindSession(panel, uid, sid); sesh != nil {
+			sk := sesh.GetSessionKey()
+			out += " skey" + name + "=" + vfC06Hex(sk[:])
+		} else {
+			out += " skey" + name + "=-"
+		}
+	}
+	srv.redir.mu.Lock()
+	out += fmt.Sprintf(" redir=%d order=%s", srv.redir.dials, order)
+	srv.redir.mu.Unlock()
+	for _, c := range conns {
+		if c.link != nil {
+			c.link.clientEnd.Close()
+		}
+	}
+	vfC06CloseSession(panel, uid, sidA)
+	vfC06CloseSession(panel, uid, sidB)
+	return out
+}
+
 func vfC06Decrypt(id string, f []string) string {
 	pt := vfC06Unhex(f[0])
 	sec, _ := strconv.ParseInt(f[1], 10, 64)
@@ -259,6 +362,10 @@ func TestVerifC06(t *testing.T) {
 			case "D":
 				if len(f) == 5 {
 					line = vfC06Decrypt(f[0], f[2:])
+				}
+			case "MS":
+				if len(f) == 8 {
+					line = vfC06Multi(f[0], f[2:])
 				}
 			case "FP":
 				if len(f) == 7 {
